@@ -17,8 +17,10 @@ LEVEL_TEXT = ("Theorems in Lean about the executable model of render_recipe_tree
 LEVEL_NOTE = ("Trusted: Lean kernel; hand-written model as far as correspondence exercises it; Python's html.parser as the tokenizer of the oracle. "
               "The visible text of every cell body is a theorem against an independent HTML tokenizer written in Lean (renderCellBody_text / _text_full: "
               "amount then description resp. output names, numbers as format_number shows them; exact for one-line bodies, modulo HTML whitespace "
-              "collapsing where a conversions list is present; renderCellBody_skeleton: the element structure does not depend on the text).")
-LEAN_MODULES = ["RecipeGrid.Props.C04", "RecipeGrid.Props.C04b"]
+              "collapsing where a conversions list is present; end to end (C04c): the grid a browser forms from the emitted rows with the classes on each cell is "
+              "exactly the visible abstract table (html_grid_is_table), the drawing of the recipe can be read back from the HTML rows alone (html_readback, for every "
+              "compile result compile_html_readback) and, for one-line cell texts, from the rendered string through the tokenizer (html_string_readback); renderCellBody_skeleton: the element structure does not depend on the text).")
+LEAN_MODULES = ["RecipeGrid.Props.C04", "RecipeGrid.Props.C04b", "RecipeGrid.Props.C04c"]
 SOURCES = ["recipe_grid/renderer/html.py", "recipe_grid/renderer/table.py", "recipe_grid/renderer/recipe_to_table.py"]
 RULE = ("random recipe trees as in C02 decorated with every quantity/proportion form, known and free-form units, names with scaled numbers and markup "
         "characters, random id prefixes; non-trivial = more than one cell; distinct = distinct (tree, prefix)")
